@@ -191,6 +191,7 @@ impl<'a> Encode for AuthTx<'a> {
         encoder.encode(AuthTx::FIXED_HDR);
         encoder.encode(remaining_len);
         encoder.encode(self.reason);
+        encoder.encode(self.property_len());
         encoder.encode(self.authentication_method.unwrap());
         encoder.encode(self.authentication_data.unwrap());
 
